@@ -191,6 +191,23 @@ impl Target {
     }
 }
 
+/// init code whose constructor calls `target` with `payload` and reverts if that call failed
+/// (so the receipt status is the inner call's); the created contract has no code
+fn ctor_calling(target: Address, payload: &[u8]) -> Vec<u8> {
+    use sim::opc::*;
+    let mut a = sim::Asm::new();
+    let plen = (payload.len() as u16).to_be_bytes();
+    a.push_exact(&plen).push_exact(&[0, 0]).op(PUSH0).op(CODECOPY);           // mem[0..plen] = payload (offset patched below)
+    a.op(PUSH0).op(PUSH0).push_exact(&plen).op(PUSH0).op(PUSH0).push_exact(target.as_slice()).op(GAS).op(CALL);
+    a.op(ISZERO).jumpi("fail").op(PUSH0).op(PUSH0).op(RETURN);
+    a.label("fail").op(PUSH0).op(PUSH0).op(REVERT);
+    let mut code = a.finish();
+    let l = (code.len() as u16).to_be_bytes();
+    code[4] = l[0]; code[5] = l[1];
+    code.extend_from_slice(payload);
+    code
+}
+
 fn cn(a: Address) -> String { U256::from_be_slice(a.as_slice()).to_string() }
 fn cu(v: U256) -> String { v.to_string() }
 fn opt_u(v: &Option<U256>) -> String { match v { Some(x) => format!("(Some {})", x), None => "None".into() } }
@@ -290,7 +307,9 @@ impl RefLedger {
 // ------------------------------------------------------------------------------------------
 
 #[derive(Clone, Copy, Debug)]
-enum Via { Pk(usize), Signer(usize), Tool { tool: usize, pk: usize } }
+enum Via { Pk(usize), Signer(usize), Tool { tool: usize, pk: usize },
+    /// a contract creation signed by signer i whose constructor makes the call (msg.sender = the address being created)
+    Ctor(usize) }
 
 const PKS: [&str; 6] = [
     "76a914f1b8e7e4f3f1f2f1e1f1f1f1f1f1f1f1f1f1f1f188ac",
@@ -386,7 +405,8 @@ impl<'a> Ctx<'a> {
         v
     }
     fn via_addr(&self, v: Via) -> Address {
-        match v { Via::Pk(i) => self.pk_addr[i], Via::Signer(i) => sim::signer_address(i), Via::Tool { tool, .. } => self.tools[tool] }
+        match v { Via::Pk(i) => self.pk_addr[i], Via::Signer(i) => sim::signer_address(i), Via::Tool { tool, .. } => self.tools[tool],
+            Via::Ctor(i) => sim::signer_address(i).create(self.nonces[i]) }
     }
     fn raw_tickers(&self) -> Vec<&'static str> { self.fams.iter().flat_map(|f| FAMILIES[*f].iter().copied()).collect() }
     fn keys(&self) -> Vec<Vec<u8>> { self.fams.iter().map(|f| lower_bytes(FAMILIES[*f][0].as_bytes())).collect() }
@@ -427,10 +447,11 @@ impl<'a> Ctx<'a> {
             Via::Pk(i) => Op::Call { from_pkscript: PKS[i].to_string(), to: To::ByAddress(Hx::addr(to)), data: Hx(data), enc, tail },
             Via::Signer(i) => Op::Transact { raw_tx: Hx(sim::sign_legacy(i, self.nonces[i], Some(to), data, sim::CHAIN_ID)), enc, tail },
             Via::Tool { tool, pk } => Op::Call { from_pkscript: PKS[pk].to_string(), to: To::ByAddress(Hx::addr(self.tools[tool])), data: Hx(cd::call(to, &data)), enc, tail },
+            Via::Ctor(i) => Op::Transact { raw_tx: Hx(sim::sign_legacy(i, self.nonces[i], None, ctor_calling(to, &data), sim::CHAIN_ID)), enc, tail },
         };
         let what = format!("{:?} {}", via, target.coq(sender));
         let Some((ok, _)) = self.send(op, &what) else { return };
-        if let Via::Signer(i) = via { self.nonces[i] += 1; }
+        if let Via::Signer(i) | Via::Ctor(i) = via { self.nonces[i] += 1; }
         self.h.items.push(format!("ICall ({}) {}", target.coq(sender), cf::boolean(ok)));
         let kind = target.kind();
         self.count(&format!("{}:{}", kind, if ok { "ok" } else { "revert" }));
@@ -709,7 +730,8 @@ impl<'a> Ctx<'a> {
     fn pick_via(&mut self) -> Via {
         match self.rng.below(100) {
             0..=49 => Via::Pk(self.rng.below(PKS.len() as u64) as usize),
-            50..=79 => Via::Signer(self.rng.below(sim::SIGNERS as u64) as usize),
+            50..=73 => Via::Signer(self.rng.below(sim::SIGNERS as u64) as usize),
+            74..=81 => Via::Ctor(self.rng.below(sim::SIGNERS as u64) as usize),
             _ => Via::Tool { tool: self.rng.below(self.tools.len() as u64) as usize, pk: self.rng.below(PKS.len() as u64) as usize },
         }
     }
@@ -1120,6 +1142,21 @@ pub fn run(out: &Path, seed: u64, thorough: bool) -> Result<(), Box<dyn std::err
 // ------------------------------------------------------------------------------------------
 
 pub fn probe() -> Result<(), Box<dyn std::error::Error>> {
+    // what "case-insensitive" means outside ASCII: deposit under one spelling, ask under others
+    let mut run = Run::new();
+    let ts = 1_700_000_000u64;
+    run.step(&Op::Initialise { hash: Hx::zero32(), ts, height: 0 });
+    let deps = ["\u{391}\u{3a3}", "\u{130}x", "STRASSE", "\u{1e9e}"];
+    for (i, t) in deps.iter().enumerate() {
+        let o = run.step(&Op::Deposit { to_pkscript: PKS[0].into(), ticker: t.to_string(), amount: "5".into(), ts: ts + 600, hash: Hx::zero32(), tx_idx: Idx::Auto, insc_id: format!("pr{}i0", i) }).clone();
+        println!("deposit {:?} (lower {:?}) -> {:?}", t, t.to_lowercase(), receipt_status(&o.result));
+    }
+    run.step(&Op::Finalise { ts: ts + 600, hash: Hx::zero32(), tx_count: Idx::Auto });
+    for q in ["\u{391}\u{3a3}", "\u{3b1}\u{3c3}", "\u{3b1}\u{3c2}", "\u{130}x", "i\u{307}x", "ix", "Ix", "strasse", "stra\u{df}e", "\u{1e9e}", "\u{df}", "ss"] {
+        let o = run.step(&Op::Balance { pkscript: PKS[0].into(), ticker: q.to_string() }).clone();
+        println!("balance {:?} (lower {:?}, upper {:?}) = {}", q, q.to_lowercase(), q.to_uppercase(), o.result);
+    }
+    // one random history, printed
     let t0 = std::time::Instant::now();
     let mut rng = Rng::new(7);
     let (h, _, _) = run_history(0, &mut rng, 12);
